@@ -1,11 +1,11 @@
 #!/usr/bin/env python3
 """store_seeded.py <ID> <slug> <caught_by ; separated> [notes]
-Copies /tmp/wt-<ID>/SEEDED into /verif/seeded/<ID>-<slug>/ and completes meta.json."""
+Copies $WT<ID>/SEEDED (default WT=/tmp/wt-) into /verif/seeded/<ID>$SUFFIX-<slug>/ and completes meta.json."""
 import json, os, shutil, sys
 pid, slug, caught = sys.argv[1], sys.argv[2], sys.argv[3]
 notes = sys.argv[4] if len(sys.argv) > 4 else ""
-src = "/tmp/wt-%s/SEEDED" % pid
-dst = "/verif/seeded/%s-%s" % (pid, slug)
+src = os.environ.get("WT", "/tmp/wt-") + pid + "/SEEDED"
+dst = "/verif/seeded/%s%s-%s" % (pid, os.environ.get("SUFFIX", ""), slug)
 os.makedirs(dst, exist_ok=True)
 for f in ("patch.diff", "demo_test.go"):
     shutil.copy(os.path.join(src, f), os.path.join(dst, f))
